@@ -55,7 +55,7 @@ def bounds(tier):
 
 def shards(tier):
     out = [("rt", s) for s in seq_shards(SIGMA, 3 if tier == "quick" else 4, prefix_len=2 if tier == "quick" else 2)]
-    out += [("state", 0), ("scope", 0), ("contain", 0), ("construction", 0)]
+    out += [("state", 0), ("scope", 0), ("contain", 0), ("construction", 0), ("long", 0)]
     # texts of middling length over a core alphabet: letter, blank, accented letter, &, %, math, URL, tilde
     out += [("core", s) for s in seq_shards(SIGMA_CORE, 5 if tier == "quick" else 7, min_len=4 if tier == "quick" else 5, prefix_len=2)]
     out += [("big", n) for n in (bigdocs.SIZES_QUICK if tier == "quick" else bigdocs.SIZES_THOROUGH)]
@@ -453,6 +453,28 @@ def check_big(n, acc):
                     acc.violation({"oracle": "roundtrip", "cause": "big library"}, {"case": case, "observed": vals2[i], "expected": vals[i]}, size=n)
 
 
+LONG_LENGTHS = {"quick": [255, 256, 257, 1023, 1024, 1025, 4090, 4095, 4096, 4097, 4103, 8200], "thorough": [255, 256, 257, 1023, 1024, 1025, 4090, 4095, 4096, 4097, 4103, 8200, 16390, 65540]}
+LONG_UNITS = ["x", "ab \xe9 ", "w $ \\beta + \\frac{a}{b} $ ", "& 100% ", "http://a.b/c_d "]
+LONG_TAILS = ["", "$ \\beta$", " $a_1 + b$ end", " caf\xe9 & co", " http://a.b/c_d"]
+
+
+def check_long_values(acc, tier):
+    """Values of every length on the ladder (around the sizes a piecewise conversion would cut at), built from one repeated
+    unit - plain letters, accented text, math holding blanks and macros, TeX specials, URLs - and a tail that puts a math
+    span / an accent / a URL right at and after the boundary: decode(encode(text)) == text, as field and as @string."""
+    for n in LONG_LENGTHS[tier]:
+        for unit in LONG_UNITS:
+            for tail in LONG_TAILS:
+                room = n - len(tail)
+                text = unit * (room // len(unit)) + "x" * (room % len(unit)) + tail  # (whole units only: exactly n characters)
+                toks = (text,)
+                if not in_domain(toks, text):
+                    acc.count("long_values_outside_domain")
+                    continue
+                acc.count("long_values")
+                check_text(toks, acc, opts=[OPTIONS[0], OPTIONS[3]], fresh=True, case={"long_value": [n, LONG_UNITS.index(unit), LONG_TAILS.index(tail)], "tokens": None})
+
+
 def check_contain_types(acc):
     """A conversion failure is contained whatever exception the converter fails with; also the shipped converters on
     deeply nested values (the third-party parser recurses)."""
@@ -738,6 +760,8 @@ def run_shard(shard, tier, acc):
         check_scope(acc)
     elif shard[0] == "construction":
         check_construction_order(acc)
+    elif shard[0] == "long":
+        check_long_values(acc, tier)
     else:
         check_contain(acc)
 
@@ -745,6 +769,8 @@ def run_shard(shard, tier, acc):
 def replay(case, acc):
     if "construction_order" in case:
         return check_construction_order(acc)
+    if "long_value" in case:
+        return check_long_values(acc, "quick" if case["long_value"][0] <= 8200 else "thorough")
     if "tokens" in case:
         check_text(tuple(case["tokens"]), acc, opts=[tuple(case["options"])], fresh=True, case=case)
         if not acc.viol:
